@@ -1290,6 +1290,10 @@ impl OpenOptions {
             // Handle missing file
             if !file_exists {
                 if self.create || self.create_new {
+                    // Creating a file over an existing directory is EISDIR
+                    if ctx.fs.dir_exists(&resolved_path) {
+                        return Err(Error::other("Is a directory"));
+                    }
                     // Check parent directory exists
                     if !ctx.fs.parent_exists(&resolved_path) {
                         return Err(Error::new(
